@@ -239,7 +239,7 @@ def _stack_ops(fi):
 
 
 @rule("C05.R3", "C05", "SIB", "pop and rollback undo the same stack components; rollback only removes",
-      min_instances=8, also=("C02",))
+      min_instances=8, also=("C02", "C08", "C09"))
 def r3(ctx, R):
     """CallStack.pop and .rollback both: deque.pop(self), idxstack.pop(), counter -= 1,
     drain refstack under `refstack[-1][0] == self.counter` evaluated after the decrement;
